@@ -114,7 +114,12 @@ func (ch *ConnectionHandler) muxHandler(protocol string, downstreamConnection io
 			if err != nil {
 				return err
 			}
-			return streams.PipeData(downstreamConnection, upstreamConnection)
+			err = streams.PipeData(downstreamConnection, upstreamConnection)
+			// PipeData only closes the end opposite to the one that finished first. The stream is
+			// closed by our caller; the connection to the target is ours to close, or a target
+			// that shuts down its sending side and waits for us would wait for ever.
+			streams.TryClose(upstreamConnection)
+			return err
 		}
 	}
 	return errors.Errorf("Uknown protocol %s", protocol)
